@@ -23,6 +23,7 @@ type Case struct {
 	OutPayload int      `json:"out_payload,omitempty"`
 	OutMore    []int    `json:"out_more,omitempty"` // further outgoing payload sizes, written right after the first with consecutive sequence numbers
 	Dirty      byte     `json:"dirty"`
+	ReadBuf    int      `json:"read_buf,omitempty"` // size of the caller's buffer for the hostile reads (0: 1700 bytes); a short one truncates like a datagram read
 	Fast       bool     `json:"fast,omitempty"` // fuzzing: skip the pauses that let ticker goroutines run
 }
 
@@ -119,6 +120,12 @@ func execute(c *Case) string { //nolint:cyclop
 	readRTP := func(raw []byte, what string, wellFormed bool) string {
 		r.rtpSrc.Push(raw)
 		buf := bytes.Repeat([]byte{c.Dirty}, 1700)
+		if !wellFormed && c.ReadBuf > 0 {
+			buf = buf[:c.ReadBuf-1 : c.ReadBuf-1] // ReadBuf 1 is the empty buffer
+			if len(raw) > len(buf) {
+				raw = raw[:len(buf)] // what the transport hands over
+			}
+		}
 		var n int
 		var rerr error
 		if v := guard(what, func() { n, _, rerr = r.reader.Read(buf, interceptor.Attributes{}) }); v != "" {
@@ -132,6 +139,9 @@ func execute(c *Case) string { //nolint:cyclop
 		if n > limit || n < 0 {
 			return fmt.Sprintf("%s (%s): Read reports %d bytes, the transport delivered %d", what, c.Member, n, limit)
 		}
+		if n > len(buf) {
+			return fmt.Sprintf("%s (%s): Read reports %d bytes for a caller buffer of %d bytes", what, c.Member, n, len(buf))
+		}
 		if wellFormed && !r.buffering {
 			if rerr != nil || n != len(raw) || !bytes.Equal(buf[:n], raw) {
 				return fmt.Sprintf("%s (%s): well-formed packet not passed through: n=%d err=%v (want %d bytes)", what, c.Member, n, rerr, len(raw))
@@ -143,13 +153,19 @@ func execute(c *Case) string { //nolint:cyclop
 	readRTCP := func(raw []byte, what string, wellFormed bool) string {
 		r.rtcpSrc.Push(raw)
 		buf := bytes.Repeat([]byte{c.Dirty}, 1700+len(raw))
+		if !wellFormed && c.ReadBuf > 0 {
+			buf = buf[:c.ReadBuf-1 : c.ReadBuf-1]
+			if len(raw) > len(buf) {
+				raw = raw[:len(buf)]
+			}
+		}
 		var n int
 		var rerr error
 		if v := guard(what, func() { n, _, rerr = r.rtcpReader.Read(buf, interceptor.Attributes{}) }); v != "" {
 			return v
 		}
-		if n > len(raw) || n < 0 {
-			return fmt.Sprintf("%s (%s): Read reports %d bytes, the transport delivered %d", what, c.Member, n, len(raw))
+		if n > len(raw) || n < 0 || n > len(buf) {
+			return fmt.Sprintf("%s (%s): Read reports %d bytes, the transport delivered %d into a buffer of %d", what, c.Member, n, len(raw), len(buf))
 		}
 		if wellFormed && (rerr != nil || n != len(raw) || !bytes.Equal(buf[:n], raw)) {
 			return fmt.Sprintf("%s (%s): well-formed compound not passed through: n=%d err=%v", what, c.Member, n, rerr)
